@@ -428,7 +428,7 @@ class Gen:
         choices = ['arith'] * 5
         if self.depth < 2:
             # loops are not nested (they share the counter register v3); inside a loop only ifs
-            choices += [c for c in self.f['control'] if not (self.in_loop and c in ('loop', 'while', 'switch'))]
+            choices += [c for c in self.f['control'] if not (self.in_loop and c in ('loop', 'while', 'switch', 'switch2'))]
         k = r.choice(choices)
         if k == 'arith':
             self.arith()
@@ -495,18 +495,23 @@ class Gen:
             self.emit('add-int/lit8', 3, 3, 1)
             self.emit('goto/16', head)
             self.emit('label', end)
-        elif k == 'switch':
-            n = r.randrange(2, 4)
+        elif k in ('switch', 'switch2'):
+            n = r.randrange(2, 4) if k == 'switch' else r.randrange(3, 5)
             labs = [self.label() for _ in range(n)]
             end = self.label()
             packed = r.random() < 0.5
             first = r.choice([0, 1, -1, 10])
             keys = [first + i for i in range(n)] if packed else sorted(r.sample(range(-20, 40), n))
-            self.emit('packed-switch' if packed else 'sparse-switch', r.choice(self.ints), list(zip(keys, labs)))
+            targets = list(labs)
+            if k == 'switch2':                  # two keys share one block (case 1: case 2: ...)
+                targets[1] = targets[0]
+            self.emit('packed-switch' if packed else 'sparse-switch', r.choice(self.ints), list(zip(keys, targets)))
             self.depth += 1
             self.block(1)                       # default
             self.emit('goto/16', end)
             for lab in labs:
+                if lab not in targets:
+                    continue
                 self.emit('label', lab)
                 self.block(1)
                 self.emit('goto/16', end)
@@ -527,6 +532,7 @@ FEATURES = {
     'ifs': dict(arith=['int3', 'lit8', 'long3', 'cast', 'const'], ops=[], control=['if', 'if', 'and_or'], cond=['long']),
     'loops': dict(arith=['int3', 'lit8', 'int2addr', 'long2addr'], ops=[], control=['loop', 'while', 'if'], cond=[]),
     'switches': dict(arith=['int3', 'lit8', 'const'], ops=[], control=['switch', 'if'], cond=[]),
+    'shared-switch': dict(arith=['int3', 'lit8', 'const'], ops=[], control=['switch2', 'switch2', 'if'], cond=[]),
     'mixed': dict(arith=['int3', 'int2addr', 'lit8', 'lit16', 'long3', 'long2addr', 'unary', 'cast', 'const', 'move'], ops=['div'],
                   control=['if', 'and_or', 'loop', 'while', 'switch'], cond=['long']),
 }
